@@ -59,7 +59,11 @@ def run_case(world, prop, monitor, extra_monitors=(), key_fn=None, nontrivial_fn
             runs.append(("faulted", F, w))
     if (world.get("case") or {}).get("resolve") and R.solver is not None and R.trials:
         # the same solve once more on the same solver object and device
-        R2 = execute(world, problem=R.problem, solver=R.solver)
+        # (half of the time from the same x0 with other starting multipliers)
+        y2 = None
+        if len(world["y0"]) and rng.random() < 0.5:
+            y2 = np.asarray(world["y0"], float) + 1.0
+        R2 = execute(world, problem=R.problem, solver=R.solver, y0=y2)
         execs += 1
         runs.append(("resolved", R2, world))
     if (world.get("case") or {}).get("foreign") and R.trials and (only is None or only == {"variant": "foreign"}):
